@@ -20,6 +20,7 @@ Each `op` is one token; fields are separated by `|`.  The output is one field pe
     order|n,n,…            reorder the bucket (directory listing order)     → ok
     addlease|now|avail|renew|cancel                                        → ok | E:<Err>
     renew|now|secret                                                       → ok | E:<Err>
+    cancel|n|secret        `cancel_lease(secret)` on the file of share n    → ok:<freed> | E:<Err> | E:NoShare
 
 Bytes are lowercase hex (`-` = empty).  "rle bytes" = chunks joined by `*`, a chunk being hex or
 `z<count>` (a run of zero bytes).  `H` is the table of the abstract hash (blake2b, computed by the real
@@ -166,9 +167,11 @@ def stepOp (c : Ctx) (b : Bucket) (op : String) : Option (Bucket × String) :=
       pure (store b (← n.toNat?) (← decRle bytes), "ok")
   | ["order", ns] => do
       let ns ← parseNats ns
+      -- listed shares first, in listing order; shares the listing does not mention keep their place behind
+      -- them (a listing that differs from the model's bucket then shows up as a disagreement in the next dump,
+      -- not as a rejected line)
       let b' := ns.filterMap fun n => (b.find? (·.1 == n))
-      if b'.length != b.length then none
-      pure (b', "ok")
+      pure (b' ++ b.filter (fun p => !ns.contains p.1), "ok")
   | ["addlease", now, avail, renew, cancel] => do
       let env := envOf c (← now.toNat?) (← avail.toNat?)
       let renew ← bytesOfHex renew
@@ -176,6 +179,14 @@ def stepOp (c : Ctx) (b : Bucket) (op : String) : Option (Bucket × String) :=
       if !(knows c renew && knows c cancel) then none
       let (b', e) := serverAddLease env b renew cancel
       pure (b', showErr e)
+  | ["cancel", n, secret] => do
+      let env := envOf c 0 0
+      let secret ← bytesOfHex secret
+      if !(knows c secret && knows c (zeros 32)) then none
+      match shareCancel env b (← n.toNat?) secret with
+      | none => pure (b, "E:NoShare")
+      | some (b', freed, none) => pure (b', s!"ok:{freed}")
+      | some (b', _, some e) => pure (b', "E:" ++ e.toString)
   | ["renew", now, secret] => do
       let env := envOf c (← now.toNat?) 0
       let secret ← bytesOfHex secret
